@@ -30,7 +30,7 @@ def case_expr(o, prob, mp, x, xr, tab_r, solved, nvar=None):
 def force_gap(specs, seed):
     """every asset touching the first node of the portfolio gets a window so that the node has dispatch variables early and late in the
     horizon but none in between (an outage of everything connected to the node)"""
-    import random
+
     out = []
     for k, sp in enumerate(specs):
         rng = random.Random('%s/gap/%d' % (seed, k))
@@ -115,6 +115,25 @@ def run(ctx):
     for sp in soft:
         sp['opts']['optimize'] = {'make_soft_problem': True}
     specs += soft
+    # node names that are another name plus digits, on horizons with two-digit step numbers (labels such as 'hub1'+'12' / 'hub11'+'2')
+
+    from props.C09 import rename_assets, asset_names, node_names
+    dig = gen.gen_many(ctx.seed, n // 3, dict(CFG, nodes=(2, 3), T=(13, 16), freqs=['h'], p_coarse=0.0, p_periodic=0.0, n_assets=(2, 4), p_unaligned_end=0.0,
+                                              kinds={'SimpleContract': 2, 'Transport': 4, 'Storage': 1, 'MultiCommodityContract': 1}), 'c01dig_')
+    for sp in dig:
+        rng = random.Random(str(sp['seed']) + '/names')
+        pool = rng.choice([['hub1', 'hub11', 'hub111'], ['N1', 'N11', 'N12'], ['1', '11', '12']])
+        rng.shuffle(pool)
+        nn = node_names(sp['assets'])
+        if len(nn) <= len(pool):
+            rename_assets(sp['assets'], {a: a for a in asset_names(sp['assets'])}, dict(zip(nn, pool)))
+    specs += dig
+    # the portfolio wrapped by a structured asset, optimised on its own afterwards
+    inner = gen.gen_many(ctx.seed, n // 3, dict(CFG, p_coarse=0.0, p_periodic=0.0, nodes=(2, 3), p_struct_window=0.0, p_window_inner=0.0,
+                                                kinds={'StructuredAsset': 4, 'SimpleContract': 1, 'Transport': 1}), 'c01in_')
+    for sp in inner:
+        sp['opts']['inner_standalone'] = True
+    specs += inner
     specs = ctx.specs(specs)
     res = C.run_impl('portfolio', specs)
     exprs, owners = [], []
@@ -140,6 +159,14 @@ def run(ctx):
             ctx.count('refix:' + str(q.get('solve')))
             if q.get('solve') == 'optimal' and q.get('out'):
                 runs.append(('first steps fixed after a change of the portfolio', q['out']['dispatch']))
+        for inn in o.get('inner') or []:
+            if inn.get('out'):
+                ctx.cov['impl_oracle_evaluations'] += 1
+                ctx.count('wrapped portfolio optimised on its own')
+                bad = util.nodal_imbalance(inn, inn['out']['dispatch'])
+                if bad:
+                    ctx.violation('impl-violation', {'spec': sp, 'mode': 'portfolio wrapped by %s, optimised on its own afterwards' % inn['name'], 'observed': bad,
+                                                     'expected': 'dispatch at every node and step sums to zero'}, trigger={'mode': 'inner stand-alone'})
         for mode, disp in runs:
             ctx.cov['impl_oracle_evaluations'] += 1
             bad = util.nodal_imbalance(o, disp)
